@@ -11,11 +11,13 @@ pub fn floor(x: i32) -> i32 {
 }
 
 pub fn round(x: i32) -> i32 {
-    floor(x + 32)
+    // FT_PIX_ROUND_LONG: the addition wraps (ADD_LONG)
+    floor(x.wrapping_add(32))
 }
 
 pub fn ceil(x: i32) -> i32 {
-    floor(x + 63)
+    // FT_PIX_CEIL_LONG: the addition wraps (ADD_LONG)
+    floor(x.wrapping_add(63))
 }
 
 fn floor_pad(x: i32, n: i32) -> i32 {
